@@ -236,7 +236,7 @@ def run_raw_ops(ops):
             elif op[0] == "fetch":
                 st, res = b.fetch_status_results(list(op[1]), mid=[tuple(m) for m in (op[2] if len(op) > 2 else [])])
                 polls.append(([(i, r["v"]) for i, r in res], [(i, st[i][1]) for i in op[1]]))
-                mops[-1] = ("fetch", list(op[1]), [list(m) for m in b.calls[-1][4]])
+                mops[-1] = ("fetch", list(op[1]), [list(m) for m in b.mid_fired])
             elif op[0] == "pause":
                 b.next_late = op[2]
                 b.pause_trial(op[1], None)
@@ -309,6 +309,7 @@ class Policy:
         self.rec = dict(suggest=[], decide=[], world=[])
         self.pos = dict(suggest=0, decide=0, world=0)
         self.clock = Clock(rng or random.Random(0), ties=self.p.get("ties", 0.0))
+        self.backend = None
         self.paused = []          # trials paused and not yet resumed (scheduler's own knowledge)
         self.nruns = {}
         self.sim = self.p.get("sim", False)
@@ -349,6 +350,8 @@ class Policy:
             else:
                 s = ["start", [list(r) for r in self._gen_reps(trial_id, 0, 1)]]
         self.rec["suggest"].append(s)
+        if s[0] == "none":
+            return None
         if s[0] == "start":
             self.nruns[trial_id] = 1
             return ("start", self._mk([tuple(r) for r in s[1]]))
@@ -379,7 +382,8 @@ class Policy:
             for tid, wk in backend.w.items():
                 if wk.proc == "running":
                     x = self.rng.random()
-                    mid = "mid_" if (not self.sim and self.rng.random() < self.p.get("p_mid", 0.15)) else ""
+                    y = self.rng.random()
+                    mid = "" if self.sim else "mid_" if y < self.p.get("p_mid", 0.15) else "post_" if y < self.p.get("p_mid", 0.15) + self.p.get("p_post", 0.1) else ""
                     if x < 0.6:
                         w.append([mid + "emit", tid, self.rng.randint(0, 3)])
                     elif x < 0.85:
@@ -410,11 +414,13 @@ def run_tuner_generic(case):
                  script=case.get("script"), params=case["params"])
     b = FakeProcLocalBackend()
     b.world_fn = pol.world
+    pol.backend = b
     sch = ScriptedScheduler(pol, b)
     cb = StoreResultsCallback()
     tuner = Tuner(trial_backend=b, scheduler=sch, stop_criterion=lambda status: b.npolls >= case["n_polls"],
                   n_workers=case["W"], sleep_time=0, callbacks=[cb], tuner_name="c02", suffix_tuner_name=False,
-                  save_tuner=False, max_failures=10 ** 6)
+                  save_tuner=False, max_failures=10 ** 6,
+                  start_jobs_without_delay=case["params"].get("sjwd", True))
     crash = None
     with quiet():
         try:
@@ -428,6 +434,9 @@ def run_tuner_generic(case):
     cur_poll = None
     for c in b.calls:
         if c[0] == "suggest":
+            continue
+        if c[0] == "exit_ok":
+            timeline.append(("exit_ok", c[1]))
             continue
         if c[0] == "result":
             out.append((c[1], c[2]))
@@ -572,6 +581,7 @@ def check_delivery(obs):
     seg, segs = {}, {}          # trial -> index of current run; (trial, run) -> delivered payloads
     polls_since, gap_at_resume = {}, {}   # polls between the decision and the resume of a trial
     decided, completed, pending = {}, set(), []
+    exited, must_complete, decided_runs = [], set(), set()
     window_all = {int(tid): set(v) for tid, v in obs["window"].items()}
 
     def settle():
@@ -582,8 +592,14 @@ def check_delivery(obs):
         del pending[:]
 
     for ev in list(obs["timeline"]) + [("end",)]:
-        if ev[0] != "result":
+        if ev[0] not in ("result", "exit_ok"):
             settle()
+        if ev[0] == "exit_ok":
+            exited.append((ev[1], seg[ev[1]]))
+        elif ev[0] == "poll":
+            # the worker of these runs had written everything and exited before this poll started
+            must_complete.update(exited)
+            del exited[:]
         if ev[0] in ("start", "resume"):
             tid = ev[1]
             seg[tid] = seg.get(tid, -1) + 1
@@ -599,6 +615,7 @@ def check_delivery(obs):
             segs[(tid, seg[tid])].append(v)
             if dec != "CONTINUE":
                 decided[tid] = dec
+                decided_runs.add((tid, seg[tid]))
                 polls_since[tid] = 0
         elif ev[0] == "poll":
             pending.extend(tid for tid, s in ev[1].items() if s == "Completed" and not decided.get(tid))
@@ -612,12 +629,16 @@ def check_delivery(obs):
             bad.append(("delivered_not_a_prefix_of_reported", dict(trial=tid, run=j, delivered=dl, reported=rep)))
         elif (tid, j) in completed and dl != rep:
             bad.append(("completed_run_not_fully_delivered", dict(trial=tid, run=j, delivered=dl, reported=rep)))
+        elif (tid, j) in must_complete and (tid, j) not in decided_runs and dl != rep:
+            # the run completed on its own and the tuning loop polled again afterwards, without any decision
+            bad.append(("run_completed_on_its_own_before_a_later_poll_not_fully_delivered",
+                        dict(trial=tid, run=j, delivered=dl, reported=rep)))
     return bad
 
 
 def gen_tuner_case(rng, sim):
     lates = rng.choice([[0], [0], [0, 0, 1], [0, 1, 2]])
-    prm = dict(p_pause=rng.choice([0.1, 0.25, 0.4]), p_stop=rng.choice([0.05, 0.12, 0.25]),
+    prm = dict(sjwd=True if sim else rng.random() < 0.7, p_pause=rng.choice([0.1, 0.25, 0.4]), p_stop=rng.choice([0.05, 0.12, 0.25]),
                p_resume=rng.choice([0.2, 0.5, 0.9]), lates=lates, ties=rng.choice([0.0, 0.0, 0.2]))
     if sim:
         dr = rng.choice([0.0, 0.05, 0.5])
@@ -656,9 +677,13 @@ def tuner_cases(ctx, replay, sim):
             ctx.h(kind + "_same_iteration_resume", obs["same_iter_resume"])
         else:
             ctx.h(kind + "_worker_acts_between_reads", min(obs.get("mids", 0), 5))
+            ctx.h(kind + "_start_jobs_without_delay", case["params"].get("sjwd", True))
         if obs["crash"]:
-            ctx.violation("correspondence", "Tuner.run crashed on a scripted run: " + obs["crash"], case=rcase,
-                          failing_input=False, broken="driver c02 whole-run (%s)" % kind)
+            # the scripts are legal (the scheduler only resumes paused trials, ...): tuning that aborts delivers nothing more
+            ctx.violation("property", "Tuner.run raised on a scripted run (%s): %s" % (kind, obs["crash"]), case=rcase,
+                          signature=dict(backend=(SIG_SIM_LATE if sim else SIG_GENERIC_LATE)["backend"], event="tuner_run_raises",
+                                         exception=obs["crash"].split(":")[0],
+                                         start_jobs_without_delay=bool(case["params"].get("sjwd", True))))
             continue
         ctx.traces_validated += 1
         for event, detail in check_delivery(obs):
@@ -670,7 +695,8 @@ def tuner_cases(ctx, replay, sim):
                 what = ("%s: trial %d got report %d, which its previous run wrote after the PAUSE decision and before the "
                         "worker was gone, delivered after resume_trial" % (sig["backend"], detail["trial"], detail["payload"]))
             else:
-                sig = dict(backend=(SIG_SIM_LATE if sim else SIG_GENERIC_LATE)["backend"], event=event)
+                sig = dict(backend=(SIG_SIM_LATE if sim else SIG_GENERIC_LATE)["backend"], event=event,
+                           start_jobs_without_delay=bool(case["params"].get("sjwd", True)))
                 what = "%s: %s %s" % (sig["backend"], event, detail)
             ctx.violation("property", what, case=dict(rcase, first_bad=detail), signature=sig)
             break
@@ -1024,7 +1050,9 @@ def run(ctx, replay=None):
                 "(<= 3 trials x <= 6 reports per run, 0..3 new reports per poll, completion before/after the last result is "
                 "seen, reports written in the decision window, unknown ids, invalid resumes); (tuner_generic / tuner_sim) "
                 "whole runs of the real Tuner with a scripted scheduler over the scripted poll backend resp. the real "
-                "SimulatorBackend with a scripted job runner (1..3 workers, 3..10 loop iterations, every "
+                "SimulatorBackend with a scripted job runner (1..3 workers, 3..10 loop iterations, start_jobs_without_delay on/off, "
+                "worker actions before a poll, between its status and text read, and between the poll and busy_trial_ids, "
+                "non-report text in std.out also in front of a report on the same line, every "
                 "CONTINUE/PAUSE/STOP/resume pattern drawn at random); (tabular) resumed jobs of UserBlackboxBackend. "
                 "non-trivial = a raw sequence returning >= 2 results with a pause/stop/resume in it; a whole run with >= 3 "
                 "delivered results, >= 1 STOP/PAUSE decision and (>= 1 resume or >= 1 result skipped in its batch); a tabular "
